@@ -1207,7 +1207,20 @@ def check_sources(rep, ix):
     return n
 
 
+def check_history(rep, ix):
+    """two documents written one after the other in one process are each what they would be alone: attribute dictionaries are
+    built per element (a helper that hands out a cached or shared dictionary, changed by its caller, leaks attributes into later
+    elements), and a dictionary given by the caller is not filled in with this document's values"""
+    for mod in ('TotalDepth.RP66V1.IndexXML', 'TotalDepth.RP66V1.ScanHTML', 'TotalDepth.util.XmlWrite', 'TotalDepth.util.plot.SVGWriter'):
+        if ix.has_module(mod):
+            common.check_fresh_returns(rep, 'R-C18-HISTORY', ix, mod)
+    for mod, cls in (('TotalDepth.util.plot.SVGWriter', 'SVGWriter'), ('TotalDepth.util.XmlWrite', 'XmlStream'), ('TotalDepth.util.XmlWrite', 'Element')):
+        common.check_param_attrs_unmutated(rep, 'R-C18-HISTORY', ix, mod, cls)
+
+
 def run(rep, ix, tier):
+    check_history(rep, ix)
+    rep.floor('R-C18-HISTORY', 3)
     check_sources(rep, ix)
     rep.floor('R-C18-SOURCE', 1)
     check_encode(rep, ix)
